@@ -61,7 +61,7 @@ m = {
     "engines": [{
         "name": "coq-model-correspondence", "path": "/verif/check",
         "serves_properties": [c["property_id"] for c in checks],
-        "kind_free_text": "Coq 8.16 theorems over hand-written executable Gallina models; extracted OCaml driver vs the Python implementation on seeded cases; Python oracles for the failing-input search; for fifty kernels (straight-line functions, loop bodies, pipelines of generator expressions, whole methods statement by statement, two compositions of translated methods; table in DESIGN.md section 3.1) a fail-closed Python-ast -> Gallina translator (harness/translate.py, translate_px.py) regenerates coq/Gen/K_*.v from /repo on every run and hand-written lemmas tie the translation to the model",
+        "kind_free_text": "Coq 8.16 theorems over hand-written executable Gallina models; extracted OCaml driver vs the Python implementation on seeded cases; Python oracles for the failing-input search; for fifty-one kernels (straight-line functions, loop bodies, pipelines of generator expressions, whole methods statement by statement, two compositions of translated methods; table in DESIGN.md section 3.1) a fail-closed Python-ast -> Gallina translator (harness/translate.py, translate_px.py) regenerates coq/Gen/K_*.v from /repo on every run and hand-written lemmas tie the translation to the model",
     }],
     "checks": checks,
     "not_applicable": [{"property_id": i, "reason": "check under construction in this round (see DESIGN.md section 6); not claimed yet"}
